@@ -24,6 +24,7 @@ P cancel <w> | P writefail <w> | P close <c> | P leave <w> | P alloc <next> <use
 
 C reset <check 0|1> <client>*                    client = id:name:spell:qtype:scope:route(f|r)
 C arrive <i> | C join <i> | C refuse <i> | C wake <i> | C evict <name> <qtype> <scope>
+C respell <name> <qtype> <scope> <spell>         the packed entry is re-packed with another spelling of its name
 C refresh <i> <scheme> <att> <att> <ev 0|1>     background refresh (optimistic cache) for client i's question
 C resolve <f> <udp|tcp|tcpudp> <att> <att>       att = fail | m:<id>:<q>:<resp>:<rcode>:<tc>:<ans>, q = - | name.spell.qtype
     -> pc=<pc of the client concerned> out=<outcome emitted by this step or -> calls=<n> cache=<entries>
@@ -227,6 +228,11 @@ def handleC (d : DSt) : List String → DSt × String
     | some n, some t, some sc =>
       let c := Ctl.step d.ccfg d.c (.evict ⟨n, t, sc⟩); ({ d with c := c }, cOut d.c c 1000000)
     | _, _, _ => (d, "bad-op")
+  | ["respell", n, t, sc, sp] =>
+    match n.toNat?, t.toNat?, sc.toNat?, sp.toNat? with
+    | some n, some t, some sc, some sp =>
+      let c := Ctl.step d.ccfg d.c (.respell ⟨n, t, sc⟩ sp); ({ d with c := c }, cOut d.c c 1000000)
+    | _, _, _, _ => (d, "bad-op")
   | ["resolve", f, sch, a1, a2] =>
     match f.toNat?, parseScheme sch, parseAtt a1, parseAtt a2 with
     | some f, some sch, some a1, some a2 =>
